@@ -121,6 +121,11 @@ def gen_case(rng, big=False):
     """One structured random case (mostly valid, edge features injected)."""
     r = rng.random()
     nmax = 20 if big else 12
+    if rng.random() < 0.12:
+        # hard core: plain 3-CNF at the threshold, largest size, small restart unit: many conflicts, backjumps, restarts
+        n = rng.choice([16, 18, 20]) if big else rng.choice([10, 11, 12])
+        cl = rand_kcnf(rng, n, int(4.26 * n) + rng.randint(0, 3), 3)
+        return mk(cl, [], "hard3cnf", solution_limit=rng.choice([1, 1, 2, 10]), luby_factor=rng.choice([1, 2, 2, 100]))
     if r < 0.62:
         n = rng.choice([4, 5, 6, 7, 8, 8, 9, 9, 10, 10, 11, 11, 12, 12] + ([14, 16, 18, 20] if big else []))
         n = min(n, nmax)
@@ -346,6 +351,23 @@ def py_luby(i):
         if i + 1 == 1 << k:
             return 1 << (k - 1)
         i -= (1 << k) - 1
+
+
+def restarts_fired(case, learns):
+    """number of restarts the code performed, recomputed from the number of analysed conflicts"""
+    kw = case["kw"]
+    csr, idx, restarts = 0, 1, 0
+    nxt = kw["luby_factor"] * py_luby(1)
+    for _ in range(learns):
+        csr += 1
+        if csr >= nxt:
+            if restarts >= kw["max_restarts"]:
+                break
+            restarts += 1
+            idx += 1
+            nxt = kw["luby_factor"] * py_luby(idx)
+            csr = 0
+    return restarts
 
 
 def budget_exhausted(case, out):
@@ -575,6 +597,8 @@ def run_engine(ctx: Ctx, pid: str):
         learns = sum(1 for e in out["trace"] if e[0] == "learn" and not e[2])
         nsol = len(returned_models(out))
         ctx.count("learned_clauses", "0" if learns == 0 else "1-5" if learns <= 5 else "6-30" if learns <= 30 else "31-150" if learns <= 150 else ">150")
+        rs = restarts_fired(case, learns)
+        ctx.count("restarts_fired", "0" if rs == 0 else "1-3" if rs <= 3 else "4-20" if rs <= 20 else ">20")
         ctx.count("models_returned", "0" if nsol == 0 else "1-2" if nsol <= 2 else "3-11" if nsol <= 11 else ">11")
         if pid == "C01":
             if learns >= 1 and nsol >= 1:
@@ -621,6 +645,22 @@ def run_engine(ctx: Ctx, pid: str):
     ctx.traces_validated += len(coq_cases) - len(failing)
     ctx.count("trace_replay", "accepted", len(coq_cases) - len(failing))
     spec_fail = []
+    if pid == "C02":
+        # budget counters recomputed from the trace inside coqc (C01/Budget.v): MAX_ITER only when a budget is met
+        bcases = [f"(({cz(c['kw']['luby_factor'])}, {cz(c['kw']['max_conflicts'])}, {cz(c['kw']['max_restarts'])}), {clist(o['trace'], c_event)})"
+                  for c, o in coq_meta]
+        bfail = ctx.coq_check("budget", IMPORTS + " From SV Require Import C01.Budget.", "(Z * Z * Z) * list event",
+                              "fun c => budget_ok (fst (fst (fst c))) (snd (fst (fst c))) (snd (fst c)) (snd c)", bcases, shard=300)
+        ctx.count("budget_replay", "accepted", len(bcases) - len(bfail))
+        for i in bfail[:2]:
+            case, out = coq_meta[i]
+            ctx.count("budget_replay", "rejected")
+            if not ctx.violations:
+                ctx.violation("budget counters recomputed from the trace (SV.C01.Budget.budget_ok, lemma Cases/C02/budget_*.v corr) reject the run: "
+                              "MAX_ITER without max_conflicts <= learned+1 or restarts >= max_restarts at a restart point, or an event after the restart budget was hit",
+                              {"clauses": case["clauses"], "assumptions": case["assumptions"], "kw": case["kw"],
+                               "observed": {"status": out.get("status"), "learn_events": sum(1 for e in out["trace"] if e[0] == "learn" and not e[2]),
+                                            "last_events": out["trace"][-3:]}}, no_input=True)
     if pid == "C01":
         spec_fail = ctx.coq_check("spec", IMPORTS, CASE_TYPE, CHK_SPEC, coq_cases, shard=300)
         for i in spec_fail[:3]:
@@ -721,4 +761,7 @@ NOTES_C01 = ["oracle: direct evaluation of every returned assignment + truth tab
 NOTES_C02 = [
     "oracle: truth table over occurring variables (<= 20); pigeonhole-5 (30 variables) is judged as known-unsatisfiable by construction",
     "MAX_ITER legitimacy: conflicts in {L, L+1} and restarts recomputed from the number L of learn events with an independent Luby function",
+    "budget_ok (Coq, C01/Budget.v) recomputes conflicts_since_restart / luby_idx / next_restart / restarts from the learn events; that the "
+    "code's `conflicts` counter is L or L+1 when max_conflicts is tested is read off the code (every counted conflict is analysed or ends "
+    "the call), not observed by the hook",
 ]
